@@ -130,6 +130,10 @@ def has_fin(case):
     return any(st[0] == "fin" for b in bodies for st in b)
 
 
+def has_ponly_op(case):
+    return any(o[0] == "setallow" for o in case["ops"])
+
+
 def cstmt(s):
     if s[0] == "fin":
         return "(SFin %s %s)" % (cexpr(s[1]), cexpr(s[2]))
@@ -404,6 +408,7 @@ def gen_ops(g, w, n, weights):
     cached_state = {c["cid"]: c["cached"] for c in w["cells"]}
     cur = {c["cid"]: c for c in w["cells"]}
     fell_back = set()
+    toggles = "setallow" in weights and r.random() < 0.3     # a quarter of the histories may switch allow_none ((P)-only)
     def emit_setf(c):
             w2 = {"nspaces": w["nspaces"], "cells": [cur[i] for i in range(len(cur))], "refs": w["refs"]}
             nc = dict(c)
@@ -451,6 +456,15 @@ def gen_ops(g, w, n, weights):
             cached_state[c["cid"]] = b
             nc = dict(c); nc["cached"] = b; cur[c["cid"]] = nc
             ops.append(["setcached", c["cid"], b])
+        elif k == "setallow":
+            # (P)-only operation (seeded/C09_r5): the allow_none property of ONE cells is switched; values that are
+            # None - and what was computed from them, also through uncached cells - must not survive a switch to False
+            cands = [x for x in cur.values() if not x.get("derived")]
+            if not cands or not toggles:
+                continue
+            c = r.choice(cands)
+            nc = dict(c); nc["allow_none"] = not c["allow_none"]; cur[c["cid"]] = nc
+            ops.append(["setallow", c["cid"], nc["allow_none"]])
         elif k == "setref" and w["refs"]:
             rr = r.choice(w["refs"])
             ops.append(["setref", rr["rid"], g.val()])
@@ -518,6 +532,35 @@ def gen_ops(g, w, n, weights):
                     ops.append(["eval", l["cid"], kl, "call"])
                 for x, kx in r.sample([(b, kb), (a, ka), (u, ku)], 3):
                     ops.append(["eval", x["cid"], kx, r.choice(SPELLINGS)])
+        elif k == "scn_allow":
+            # directed scenario (seeded/C09_r5), (P)-only: an UNCACHED cells u returning None (allowed), a cached cells d
+            # computed through u; then u.allow_none = False: d must not keep its value (u now refuses to return None)
+            cands = sorted([x for x in cur.values() if not x.get("derived")], key=lambda x: x["cid"])
+            if len(cands) < 2 or not toggles:
+                continue
+            d, u = cands[0], cands[-1]
+            if r.random() < 0.5 and len(cands) >= 3:
+                d = r.choice(cands[:-1])
+            for x, flag in ((d, True), (u, r.random() < 0.3)):
+                if cached_state[x["cid"]] != flag:
+                    cached_state[x["cid"]] = flag
+                    nx_ = dict(cur[x["cid"]]); nx_["cached"] = flag; cur[x["cid"]] = nx_
+                    ops.append(["setcached", x["cid"], flag])
+            if not cur[u["cid"]]["allow_none"]:
+                nu = dict(cur[u["cid"]]); nu["allow_none"] = True; cur[u["cid"]] = nu
+                ops.append(["setallow", u["cid"], True])
+            d, u = cur[d["cid"]], cur[u["cid"]]
+            kd, ku = g.key(d), g.key(u)
+            nu = dict(u); nu["body"] = [["assign", ["const", None]]]; cur[u["cid"]] = nu
+            ops.append(["setf", u["cid"], nu, "direct"])
+            nd = dict(d); nd["body"] = [["assign", ["call", u["cid"], [["const", v] for v in ku]]], ["assign", ["const", r.randint(1, 9)]]]
+            cur[d["cid"]] = nd
+            ops.append(["setf", d["cid"], nd, "direct"])
+            ops.append(["eval", d["cid"], kd, r.choice(SPELLINGS)])
+            nu = dict(cur[u["cid"]]); nu["allow_none"] = False; cur[u["cid"]] = nu
+            ops.append(["setallow", u["cid"], False])
+            ops.append(["eval", d["cid"], kd, r.choice(SPELLINGS)])
+            ops.append(["eval", u["cid"], ku, "call"])
         elif k == "scn_recalc":
             # directed scenario (seeded/C06_r2): with the recalculation option on, an assignment whose immediate
             # recomputation of a dependent FAILS; the assigned value must still be an input afterwards (survive
